@@ -585,7 +585,8 @@ func batches(run *ev.Run) (int, int) {
 				}
 				evals++
 				distinct++
-				for _, remoteFails := range []bool{false, true} {
+				for _, fault := range []string{"", "rpc-error", "no-address"} {
+					remoteFails := fault != ""
 					if remoteFails && n < 2 {
 						continue
 					}
@@ -593,7 +594,7 @@ func batches(run *ev.Run) (int, int) {
 						evals++
 						distinct++
 					}
-					if k, d := oneBatch(op, shape, names, remoteFails); k != "" {
+					if k, d := oneBatch(op, shape, names, fault); k != "" {
 						var sn []string
 						for _, s := range shape {
 							sn = append(sn, names[s])
@@ -601,7 +602,7 @@ func batches(run *ev.Run) (int, int) {
 						if remoteFails {
 							k += ":remote-partition-unreachable"
 						}
-						run.Violation(k+":"+op, fmt.Sprintf("%s%v (remote partition's node answers with an rpc error: %v): %s", op, sn, remoteFails, d), map[string]interface{}{"op": op, "shape": sn, "remote_fails": remoteFails})
+						run.Violation(k+":"+op, fmt.Sprintf("%s%v (remote partition's node: %q): %s", op, sn, fault, d), map[string]interface{}{"op": op, "shape": sn, "remote_fault": fault})
 					}
 				}
 			}
@@ -615,7 +616,8 @@ type def struct{}
 func (def) Pick(s *vrt.Sched, alts []vrt.Alt, costs []int) int { return 0 }
 
 // oneBatch runs one batch through node 1 of a 2-node cluster: partition 0 on node 1, 1 on node 2.
-func oneBatch(op string, shape []itemKind, names map[itemKind]string, remoteFails bool) (key, desc string) {
+func oneBatch(op string, shape []itemKind, names map[itemKind]string, fault string) (key, desc string) {
+	remoteFails := fault != ""
 	fakes.Reset()
 	vrt.ResetContexts()
 	s := vrt.New()
@@ -630,9 +632,14 @@ func oneBatch(op string, shape []itemKind, names map[itemKind]string, remoteFail
 		}
 	}()
 	var meta *pb.Dataset
-	nodes, meta = clusterSeq(x, 2, [][]uint64{{1}, {2}})
+	var knows func(a, b uint64) bool
+	if fault == "no-address" {
+		// the entry node has no address for the remote partition's node (it left the cluster but is still listed)
+		knows = func(a, b uint64) bool { return !(a == 1 && b == 2) }
+	}
+	nodes, meta = cluster(x, 2, [][]uint64{{1}, {2}}, knows)
 	idx := []*index.Hnsw{nodes[0].Dataset(meta).VerifPartition(0).Index(), nodes[1].Dataset(meta).VerifPartition(1).Index()}
-	if remoteFails {
+	if fault == "rpc-error" {
 		fakes.Intercept = func(target, method string, ctx context.Context, req interface{}) (bool, interface{}, error) {
 			if target == world.Addr(2) && strings.HasPrefix(method, "PartitionBatch") {
 				return true, nil, fakes.ErrUnavailable
